@@ -638,6 +638,54 @@ inline bool packLegal(CircuitSpec &s, Tape &t) {
 }
 
 // ---------------------------------------------------------------------------
+// Literal encoding of a (net-less) spec, used by the small-scope enumerators to
+// emit a replayable tape: [kExplicitSpec, rowHeight, nrows, (minX,maxX,minY,o)*,
+// ncells, (w,h,x,y,o,pol,fixed,obs)*].
+constexpr uint32_t kExplicitSpec = 0xE7E7E7E7u;
+inline Tape encodeSpec(const CircuitSpec &s, std::initializer_list<int> extra = {}) {
+  Tape t;
+  t.w = {kExplicitSpec, (uint32_t)s.rowHeight, (uint32_t)s.rows.size()};
+  for (auto &r : s.rows) {
+    t.w.push_back((uint32_t)r.minX), t.w.push_back((uint32_t)r.maxX), t.w.push_back((uint32_t)r.minY), t.w.push_back((uint32_t)r.orientation);
+  }
+  t.w.push_back((uint32_t)s.cells.size());
+  for (auto &c : s.cells) {
+    t.w.push_back((uint32_t)c.w), t.w.push_back((uint32_t)c.h), t.w.push_back((uint32_t)c.x), t.w.push_back((uint32_t)c.y);
+    t.w.push_back((uint32_t)c.orient), t.w.push_back((uint32_t)c.polarity), t.w.push_back((uint32_t)c.fixed), t.w.push_back((uint32_t)c.obstruction);
+  }
+  for (int e : extra) t.w.push_back((uint32_t)e);
+  return t;
+}
+/// Decode a literal spec (values are clamped so that any tape is a valid small circuit).
+inline CircuitSpec decodeSpec(Tape &t) {
+  CircuitSpec s;
+  t.next();
+  auto iv = [&](int lo, int hi) {
+    int v = (int)(int32_t)t.next();
+    return std::max(lo, std::min(v, hi));
+  };
+  s.rowHeight = iv(1, 4000);
+  int nr = iv(1, 16);
+  for (int i = 0; i < nr; ++i) {
+    int a = iv(-(1 << 22), 1 << 22), b = iv(-(1 << 22), 1 << 22), y = iv(-(1 << 22), (1 << 22) - s.rowHeight), o = iv(0, 7);
+    if (b <= a) b = a + 1;
+    static const int un[] = {0, 1, 4, 5};
+    bool ok = o == 0 || o == 1 || o == 4 || o == 5;
+    s.rows.emplace_back(a, b, y, y + s.rowHeight, (CellOrientation)(ok ? o : un[o % 4]));
+  }
+  int nc = iv(0, 32);
+  for (int i = 0; i < nc; ++i) {
+    CellSpec c;
+    c.w = iv(0, 1 << 20), c.h = iv(0, 1 << 20), c.x = iv(-(1 << 22), 1 << 22), c.y = iv(-(1 << 22), 1 << 22);
+    c.orient = iv(0, 7), c.polarity = iv(0, 4), c.fixed = iv(0, 1), c.obstruction = iv(0, 1);
+    c.kind = "cell:explicit";
+    s.cells.push_back(c);
+  }
+  s.labels.insert("explicit");
+  return s;
+}
+
+// ---------------------------------------------------------------------------
 struct ParamOpts {
   bool global = false;      // also draw global-placement parameters
   int maxNbSteps = 60;      // resource bound
